@@ -157,30 +157,6 @@ Proof.
   apply (G l (binit m)); [apply bbr_floor_init|exact H].
 Qed.
 
-(* an acknowledgement with nothing to refer to (no packet was ever sent) is skipped by the harness *)
-Definition ack_skipped (s : bstate) (o : op) : bool :=
-  match o with
-  | Ack bytes _ _ => match snd (take (bq s) bytes None), blast s with None, None => true | _, _ => false end
-  | _ => false
-  end.
-
-Lemma bstep_bif : forall s o a s', bstep s o a = Some s' -> ack_skipped s o = false ->
-  bbif s' + removed_of o = bbif s + sent_of o /\ (bbif s <= u32_max -> bbif s' <= u32_max).
-Proof.
-  intros s o a s' H K.
-  destruct o as [bytes app|bytes st now|bytes pers now|now|m|bytes|]; cbn [removed_of sent_of].
-  - bstep_cases H. injection H as <-. cbn [bbif]. apply N.ltb_ge in E. lia.
-  - unfold bstep in H. unfold ack_skipped in K. destruct (take (bq s) bytes None) as [q' hit]. cbn [snd] in K.
-    destruct hit as [t|]; [|destruct (blast s) as [t|]; [|discriminate]];
-      (destruct (N.ltb_spec (bbif s) bytes); [discriminate|]; injection H as <-; cbn [bbif]; lia).
-  - bstep_cases H. apply orb_false_iff in E. destruct E as [_ E]. apply N.ltb_ge in E.
-    injection H as <-. cbn [bbif]. lia.
-  - bstep_cases H. injection H as <-. lia.
-  - bstep_cases H. injection H as <-. cbn [bbif]. lia.
-  - bstep_cases H. apply N.ltb_ge in E. injection H as <-. cbn [bbif]. lia.
-  - bstep_cases H. injection H as <-. lia.
-Qed.
-
 (* the packet queue the harness keeps holds exactly the bytes in flight, so an acknowledgement of
    at least one byte always finds a packet *)
 Fixpoint qsum (q : list (N * N)) : N := match q with [] => 0 | (b, _) :: r => b + qsum r end.
@@ -264,7 +240,7 @@ Qed.
 Lemma bstep_qinv : forall s o a s' now, qinv s -> bstep s o a = Some s' -> qinv (note_sent s' o now).
 Proof.
   intros s o a s' now [Q P] H. unfold qinv.
-  destruct o as [bytes app|bytes st tnow|bytes pers tnow|tnow|m|bytes|].
+  destruct o as [bytes ap|bytes st tnow|bytes pers tnow|tnow|m|bytes|].
   - bstep_cases H. injection H as <-. cbn [note_sent bq bbif].
     destruct (N.eqb_spec bytes 0) as [Z|Z].
     + subst bytes. split; [lia|exact P].
@@ -292,20 +268,131 @@ Proof.
   - bstep_cases H. injection H as <-. split; assumption.
 Qed.
 
-Lemma bstep_some_iff : forall s o a, op_valid (bbif s) o = true <-> bstep s o a <> None.
+Lemma bstep_valid_some : forall s o a, op_valid (bbif s) o = true -> bstep s o a <> None.
 Proof.
-  intros s o a. unfold op_valid, bstep. destruct o as [bytes app|bytes st now|bytes pers now|now|m|bytes|].
-  - destruct (N.eqb_spec bytes 0) as [Z|Z]; cbn [orb].
-    + subst bytes. rewrite N.add_0_r. destruct (N.ltb_spec u32_max (bbif s)).
-      * split; [intros _|reflexivity]. (* bytes = 0 while the counter is above u32: cannot happen, but the model panics *)
-        admit_placeholder.
-      * split; [discriminate|reflexivity].
-    + destruct (N.ltb_spec u32_max (bbif s + bytes)); destruct (N.leb_spec (bbif s + bytes) u32_max); try lia;
-        split; try discriminate; try congruence.
-  - admit_placeholder.
-  - admit_placeholder.
-  - split; [discriminate|reflexivity].
-  - split; [discriminate|reflexivity].
-  - admit_placeholder.
-  - split; [discriminate|reflexivity].
+  intros s o a V. unfold op_valid in V. unfold bstep.
+  destruct o as [bytes app|bytes st now|bytes pers now|now|m|bytes|]; try discriminate.
+  - destruct (N.eqb_spec bytes 0); cbn [orb negb andb] in *; [discriminate|].
+    apply N.leb_le in V. destruct (N.ltb_spec u32_max (bbif s + bytes)); [lia|discriminate].
+  - apply N.leb_le in V. destruct (take (bq s) bytes None) as [q' hit].
+    destruct (match hit with Some t => Some t | None => blast s end); [|discriminate].
+    destruct (N.ltb_spec (bbif s) bytes); [lia|discriminate].
+  - apply andb_prop in V. destruct V as [V1 V2]. apply N.leb_le in V2.
+    destruct (N.eqb_spec bytes 0); [discriminate|]. cbn [orb].
+    destruct (N.ltb_spec (bbif s) bytes); [lia|]. destruct (take (bq s) bytes None). discriminate.
+  - apply N.leb_le in V. destruct (N.ltb_spec (bbif s) bytes); [lia|]. destruct (take (bq s) bytes None). discriminate.
+Qed.
+
+Lemma bstep_bif : forall s o a s', qinv s -> op_valid (bbif s) o = true -> bstep s o a = Some s' ->
+  bbif s' + removed_of o = bbif s + sent_of o /\ (bbif s <= u32_max -> bbif s' <= u32_max).
+Proof.
+  intros s o a s' [Q P] V H. unfold op_valid in V.
+  destruct o as [bytes app|bytes st now|bytes pers now|now|m|bytes|]; cbn [removed_of sent_of].
+  - unfold bstep in H. destruct (N.eqb_spec bytes 0) as [Z|Z]; cbn [orb negb andb] in *.
+    + injection H as <-. cbn [bbif]. lia.
+    + apply N.leb_le in V. destruct (N.ltb_spec u32_max (bbif s + bytes)); [discriminate|].
+      injection H as <-. cbn [bbif]. lia.
+  - apply N.leb_le in V. unfold bstep in H. destruct (take (bq s) bytes None) as [q' hit] eqn:T.
+    destruct (match hit with Some t => Some t | None => blast s end) as [st0|] eqn:HT.
+    + destruct (N.ltb_spec (bbif s) bytes); [discriminate|]. injection H as <-. cbn [bbif]. lia.
+    + (* skipped by the harness: only possible for an acknowledgement of zero bytes *)
+      injection H as <-. destruct hit; [discriminate|].
+      destruct (N.eq_dec bytes 0) as [Z|Z]; [lia|exfalso].
+      apply (take_some (bq s) bytes None); [lia|lia|exact P|]. rewrite T. reflexivity.
+  - apply andb_prop in V. destruct V as [V1 V2]. apply N.leb_le in V2. unfold bstep in H.
+    destruct ((bytes =? 0) || (bbif s <? bytes)); [discriminate|].
+    destruct (take (bq s) bytes None). injection H as <-. cbn [bbif]. lia.
+  - unfold bstep in H. injection H as <-. cbn [bbif]. lia.
+  - unfold bstep in H. injection H as <-. cbn [bbif]. lia.
+  - apply N.leb_le in V. unfold bstep in H. destruct (bbif s <? bytes); [discriminate|].
+    destruct (take (bq s) bytes None). injection H as <-. cbn [bbif]. lia.
+  - unfold bstep in H. injection H as <-. lia.
+Qed.
+
+(* bytes_in_flight along every valid history: sent minus acknowledged, lost and discarded *)
+Fixpoint bhist_valid (b : N) (l : list (op * N * banswer)) : bool :=
+  match l with
+  | [] => true
+  | (o, _, _) :: t => op_valid b o && bhist_valid (b + sent_of o - removed_of o) t
+  end.
+Fixpoint btotal (f : op -> N) (l : list (op * N * banswer)) : N :=
+  match l with [] => 0 | (o, _, _) :: t => f o + btotal f t end.
+
+Theorem bbr_bif_matches_outstanding : forall l s, qinv s -> bhist_valid (bbif s) l = true ->
+  exists s', bsteps s l = Some s' /\
+    bbif s' + btotal removed_of l = bbif s + btotal sent_of l /\ (bbif s <= u32_max -> bbif s' <= u32_max).
+Proof.
+  induction l as [|[[o now] a] t IH]; intros s Q V; cbn [bsteps bhist_valid btotal] in *.
+  - exists s. repeat split; auto; lia.
+  - apply andb_prop in V. destruct V as [V1 V2].
+    destruct (bstep s o a) as [s1|] eqn:E; [|exfalso; eapply bstep_valid_some; eassumption].
+    destruct (bstep_bif _ _ _ _ Q V1 E) as [A B].
+    pose proof (bstep_qinv _ _ _ _ now Q E) as Q1.
+    destruct (note_sent_proj s1 o now) as (_ & _ & N3 & _).
+    replace (bbif s + sent_of o - removed_of o) with (bbif (note_sent s1 o now)) in V2 by (rewrite N3; lia).
+    destruct (IH _ Q1 V2) as (s' & S1 & S2 & S3). exists s'. rewrite N3 in S2, S3. repeat split; auto; lia.
+Qed.
+
+Lemma bjudge_replay_from : forall ops s j ts rows S, bjm j = bmds s -> bjb j = bbif s -> binv s -> qinv s ->
+  bsat s S -> S + sent_ops ops <= CAP0 -> breplay_ok s ops ts rows ->
+  bjudge_from j ops (breplay_from s ops ts rows) = true.
+Proof.
+  induction ops as [|o t IH]; intros s j ts rows S Em Eb I Q J T K;
+    cbn [bjudge_from breplay_from breplay_ok sent_ops] in *.
+  - reflexivity.
+  - destruct (bnext_answer rows) as [a rows'].
+    assert (V : bjvalid j o = op_valid (bbif s) o) by (unfold bjvalid, op_valid; rewrite Eb; destruct o; reflexivity).
+    destruct (bjvalid j o) eqn:V1; cbn [negb]; [|reflexivity]. symmetry in V.
+    destruct (bstep s o a) as [s1|] eqn:E; [|exfalso; eapply bstep_valid_some; eassumption].
+    destruct K as [K1 K].
+    pose proof (bstep_floor _ _ _ _ I E) as I1. pose proof (bstep_bif _ _ _ _ Q V E) as [B _].
+    pose proof (bstep_qinv _ _ _ _ (hd 0 ts) Q E) as Q1.
+    pose proof (bstep_sat _ _ _ _ _ J E K1) as J1.
+    set (s' := note_sent s1 o (hd 0 ts)) in *.
+    destruct (note_sent_proj s1 o (hd 0 ts)) as (N1 & N2 & N3 & N4 & N5). fold s' in N1, N2, N3, N4, N5.
+    assert (I' : binv s') by (unfold binv; rewrite N1, N2; exact I1).
+    assert (J' : bsat s' (S + sent_of o)) by (unfold bsat in *; rewrite N1, N2, N3, N4, N5; exact J1).
+    assert (W : bcwnd s' < u32_max).
+    { destruct J' as (A1 & A2 & _). unfold CAP0 in *. unfold u32_max. lia. }
+    unfold brow. cbn [app].
+    assert (Z1 : (Nz (bcwnd s') <? 0)%Z = false) by (apply Z.ltb_ge; unfold Nz; lia).
+    assert (Z2 : (Nz (bbif s') <? 0)%Z = false) by (apply Z.ltb_ge; unfold Nz; lia).
+    rewrite Z1, Z2. cbn [orb]. unfold zN, Nz. rewrite !N2Z.id.
+    assert (M : match o with Mtu m => m | _ => bjm j end = bmds s').
+    { rewrite N1. clear - E Em. destruct o as [bytes app|bytes st now|bytes pers now|now|m|bytes|];
+        bstep_cases E; injection E as <-; cbn [bmds]; congruence. }
+    assert (Bq : match o with
+                 | Sent bytes _ => bjb j + bytes
+                 | Ack bytes _ _ | Lost bytes _ _ | Discard bytes => bjb j - bytes
+                 | _ => bjb j end = bbif s').
+    { rewrite Eb, N3. destruct o; cbn [sent_of removed_of] in B; lia. }
+    unfold bjstep. rewrite M, Bq. unfold binv in I'.
+    assert (T1 : (bbr_min_window (bmds s') <=? bcwnd s') = true) by (apply N.leb_le; exact I').
+    assert (T2 : (bcwnd s' <? u32_max) = true) by (apply N.ltb_lt; exact W).
+    rewrite T1, T2, N.eqb_refl. cbn [andb].
+    apply (IH s' _ _ _ (S + sent_of o)); cbn [bjm bjb]; auto. lia.
+Qed.
+
+(* the judgement accepts every replay of the model when at most 2^30 bytes are sent in the
+   history, for every sequence of oracle answers (no per-step hypothesis on the window) *)
+Theorem bbr_judge_replay : forall m t rows, (0 <= m < 65536)%Z ->
+  sent_ops (decode 0 t) <= CAP0 ->
+  breplay_ok (binit (zN m)) (decode 0 t) (times 0 t) (snd (bnext_answer rows)) ->
+  Bbr.judge (m :: t) (breplay (m :: t) rows) = true.
+Proof.
+  intros m t rows M T K. unfold Bbr.judge, breplay.
+  assert (M' : zN m < 65536) by (unfold zN; lia).
+  set (s := binit (zN m)) in *. unfold brow. cbn [app].
+  assert (W : bcwnd s = bbr_initial_window (zN m)) by reflexivity.
+  assert (A : 4 * zN m <= bcwnd s /\ bcwnd s <= 10 * zN m).
+  { rewrite W. rewrite bbr_initial_window_rfc. lia. }
+  assert (Z1 : (0 <=? Nz (bcwnd s))%Z = true) by (apply Z.leb_le; unfold Nz; lia).
+  rewrite Z1. unfold zN at 2 3 4, Nz. rewrite !N2Z.id. rewrite bbr_min_window_eq.
+  assert (Z2 : (4 * zN m <=? bcwnd s) = true) by (apply N.leb_le; lia).
+  assert (Z3 : (bcwnd s <? u32_max) = true) by (apply N.ltb_lt; unfold u32_max; lia).
+  rewrite Z2, Z3. cbn [andb bbif s binit]. change (Z.of_N 0 =? 0)%Z with true. cbn [andb].
+  apply (bjudge_replay_from _ s _ _ _ 0); cbn [bjm bjb]; auto.
+  - apply bbr_floor_init.
+  - split; [reflexivity|intros ? ? []].
+  - unfold bsat, s. cbn [binit bcwnd bprior bdeliv bbif bmds]. rewrite bbr_initial_window_rfc. unfold CAP0. repeat split; lia.
 Qed.
